@@ -133,7 +133,7 @@ def worker(shard):
 
 
 # ------------------------------------------------------------ consumption BFS
-FEED_BYTES = (0x90, 0x01, 0xF8, 0xF0, 0xF7)
+FEED_BYTES = (0x90, 0x01, 0xF8, 0xF0, 0xF7, 0xF6, 0xC2, 0xF4)
 BULK = (0x91, 1, 2, 0x81, 3, 4)
 QMAX = 3
 
